@@ -257,6 +257,9 @@ def run(ck):
         for e in acc:
             nacc += 1
             ok = lib.holds(ls.get((e.block, e.idx)), T + "toWriteLock", "this")
+            if not ok:
+                # a private helper split out of a locked region: every call site holds the lock
+                ok = lib.caller_holds(prog, fn, T + "toWriteLock", "this")
             ck.ob("C09-R3", "toWrite-locked@%s" % fn.base.replace(T, ""), ok, e.loc, fn, "under toWriteLock" if ok else
                   "toWrite is accessed without toWriteLock: handleNewPeer runs on the acceptor thread, the rest on the worker")
     ck.require(nacc >= 5, "accesses to Transport::toWrite analysed: %d" % nacc)
